@@ -181,9 +181,10 @@ func Verifies(c Cid, data []byte) (good bool, known bool) {
 	if c.MhCode == 0 {
 		return bytes.Equal(d, c.Digest), true
 	}
-	if len(c.Digest) > len(d) || len(c.Digest) == 0 {
+	if len(c.Digest) > len(d) {
 		return false, true
 	}
+	// A truncated digest (multihash allows any length, even 0) matches when it is a prefix.
 	return bytes.Equal(d[:len(c.Digest)], c.Digest), true
 }
 
